@@ -1,10 +1,11 @@
-\* C30 quick: every command policy with <= 3 statements, nesting 1
+\* C30 quick: every command policy with <= 3 statements, nesting <= 2, full menus (12 266 programs)
 SPECIFICATION Spec
 CONSTANTS
   MaxStmts = 3
-  MaxDepth = 1
-  OpsMenu <- MCOpsMenuSmall
-  RecallMenu <- MCRecallMenuSmall
+  MaxDepth = 2
+  OpsMenu <- MCOpsMenu
+  RecallMenu <- MCRecallMenu
   MatchArms <- MCMatchArms
-INVARIANTS NoSideEffectsOnFailure RecalledMarked ExitShape CompiledAgrees Emit
+  Enumerate = TRUE
+INVARIANTS WellFormed NoSideEffectsOnFailure RecalledMarked ExitShape CompiledAgrees Emit
 CHECK_DEADLOCK FALSE
